@@ -9,19 +9,19 @@ namespace Fadl
 /-- the follower leaves a name alone, records no effect, and gives it the type the environment has
     for it (Any when it has none and it is not a registered function) -/
 theorem follow_name (M : Model) (fuel : Nat) (G : Gamma) (st : FSt) (x : String) :
-    ∃ t, follow M (fuel + 1) G st (.name x) = .ok ⟨.name x, t, st⟩ := by
+    ∃ t, follow M (fuel + 1) G st (.name x) = .ok ⟨.name x, t, st, []⟩ := by
   simp only [follow]
   split
   · exact ⟨_, rfl⟩
   · split <;> exact ⟨_, rfl⟩
 
 theorem follow_const (M : Model) (fuel : Nat) (G : Gamma) (st : FSt) (c : Const) :
-    follow M (fuel + 1) G st (.const c) = .ok ⟨.const c, constTy c, st⟩ := by
+    follow M (fuel + 1) G st (.const c) = .ok ⟨.const c, constTy c, st, []⟩ := by
   simp only [follow]
 
 /-- a lambda that is not the argument of a collection operator is not looked into -/
 theorem follow_lambda (M : Model) (fuel : Nat) (G : Gamma) (st : FSt) (ps : List String) (b : Expr) :
-    follow M (fuel + 1) G st (.lam ps b) = .ok ⟨.lam ps b, .callable, st⟩ := by
+    follow M (fuel + 1) G st (.lam ps b) = .ok ⟨.lam ps b, .callable, st, []⟩ := by
   simp only [follow]
 
 /-- `_fill_in_default_arguments` on a call that already has every parameter positionally: unchanged -/
